@@ -1,6 +1,1792 @@
-//! C05 — stub: correspondence harness not built yet.
+//! C05 — searchers are immutable snapshots; readers only ever see whole commits.
+//!
+//! Ties `Model/Reader.lean` to `reader/mod.rs`, `core/searcher.rs`, `segment_reader.rs`,
+//! `managed_directory.rs::garbage_collect`, `segment_updater.rs::{save_metas, garbage_collect_files}`:
+//!  (a) every storage trace logged from the real code (writer `Index` + separate reader `Index`
+//!      instances over one instrumented directory) is translated into model events and the Lean
+//!      model decides the lock discipline on it; the `j` the model assigns to every reload is
+//!      compared with the commit identified from the real searcher;
+//!  (b) fingerprints of held searchers (ids through a fast field, stored docs, query counts, top
+//!      docs, fast-field reads, num_docs) recomputed while commits / merges / deletes / rollback /
+//!      GC / writer drop run — RamDirectory and MmapDirectory;
+//!  (c) forced windows: a reload paused before each of its storage operations while the writer
+//!      commits + merges + GCs; the result must be exactly one commit;
+//!  (d) commit generations observed by reloads (second thread, second Index, Manual and
+//!      OnCommitWithDelay) never decrease unless two reloads of the same reader overlapped (S5).
+use crate::dirs::{Hook, OpKind, OpRec};
+use crate::rng::Rng;
 use crate::Ctx;
+use serde_json::{json, Value};
+use std::collections::{BTreeMap, BTreeSet, HashMap};
+use std::ops::Range;
+use std::panic::{catch_unwind, AssertUnwindSafe};
+use std::path::{Path, PathBuf};
+use std::sync::atomic::{AtomicBool, Ordering};
+use std::sync::{Arc, Condvar, Mutex};
+use std::time::{Duration, Instant};
+use tantivy::collector::{Count, TopDocs};
+use tantivy::directory::error::{DeleteError, LockError, OpenReadError, OpenWriteError};
+use tantivy::directory::{DirectoryLock, FileHandle, Lock, MmapDirectory, OwnedBytes, RamDirectory, WatchCallback, WatchHandle, WritePtr};
+use tantivy::merge_policy::NoMergePolicy;
+use tantivy::query::{BooleanQuery, Occur, PhraseQuery, Query, TermQuery};
+use tantivy::schema::{Field, IndexRecordOption, Schema, Value as _, FAST, INDEXED, STORED, STRING, TEXT};
+use tantivy::{Directory, HasLen, Index, IndexReader, IndexWriter, ReloadPolicy, Searcher, TantivyDocument, Term};
+
+const LOCK: &str = ".tantivy-meta.lock";
+const META: &str = "meta.json";
+const MARK_PUB: &str = ".c05-pub";
+const MARK_GCLIST: &str = ".c05-gclist";
+const MARK_ATTEMPT: &str = ".c05-lock-attempt";
+const WORDS: [&str; 8] = ["apple", "berry", "cedar", "delta", "ember", "fjord", "grove", "heath"];
+
+// ------------------------------------------------------------------------------------------
+// GDir: VDir + a hook on every read of file bytes (the only place a reload touches storage
+// after it has released META_LOCK), and a log of thread ids for lock / meta operations
+// ------------------------------------------------------------------------------------------
+type ReadHook = Arc<dyn Fn(&str) + Send + Sync>;
+
+/// Like `dirs::VDir` (same record and hook types, hook called before the operation, outside any
+/// lock), but the record is appended *atomically with the operation itself*, after a possible
+/// pause in the hook: the log is a linearisation of what racing threads did to the directory,
+/// which is what the model's traces are. (`VDir` logs before it runs the hook and the operation.)
+#[derive(Default)]
+struct GState {
+    log: Vec<OpRec>,
+    seq: u64,
+    hook: Option<Hook>,
+}
+
+#[derive(Clone)]
+struct GDir {
+    inner: Box<dyn Directory>,
+    st: Arc<Mutex<GState>>,
+    read_hook: Arc<Mutex<Option<ReadHook>>>,
+}
+
+impl std::fmt::Debug for GDir {
+    fn fmt(&self, f: &mut std::fmt::Formatter<'_>) -> std::fmt::Result {
+        write!(f, "GDir")
+    }
+}
+
+struct GHandle {
+    inner: Arc<dyn FileHandle>,
+    path: String,
+    hook: Arc<Mutex<Option<ReadHook>>>,
+}
+
+impl std::fmt::Debug for GHandle {
+    fn fmt(&self, f: &mut std::fmt::Formatter<'_>) -> std::fmt::Result {
+        write!(f, "GHandle({})", self.path)
+    }
+}
+
+impl HasLen for GHandle {
+    fn len(&self) -> usize {
+        self.inner.len()
+    }
+}
+
+impl FileHandle for GHandle {
+    fn read_bytes(&self, range: Range<usize>) -> std::io::Result<OwnedBytes> {
+        let h = self.hook.lock().unwrap_or_else(|e| e.into_inner()).clone();
+        if let Some(h) = h {
+            h(&self.path);
+        }
+        self.inner.read_bytes(range)
+    }
+}
+
+fn thread_name() -> String {
+    let t = std::thread::current();
+    match t.name() {
+        Some(n) => n.to_string(),
+        None => format!("{:?}", t.id()),
+    }
+}
+
+impl GDir {
+    fn new() -> GDir {
+        GDir::over(Box::new(RamDirectory::create()))
+    }
+    fn over(inner: Box<dyn Directory>) -> GDir {
+        GDir { inner, st: Arc::new(Mutex::new(GState::default())), read_hook: Arc::new(Mutex::new(None)) }
+    }
+    fn pre_hook(&self, kind: OpKind, path: &str) {
+        let hook = self.st.lock().unwrap_or_else(|e| e.into_inner()).hook.clone();
+        if let Some(h) = hook {
+            h(&OpRec { seq: 0, thread: thread_name(), kind, path: path.to_string(), len: 0, ok: true, faulted: false, data: None });
+        }
+    }
+    fn set_read_hook(&self, h: Option<ReadHook>) {
+        *self.read_hook.lock().unwrap_or_else(|e| e.into_inner()) = h;
+    }
+    fn set_hook(&self, h: Option<Hook>) {
+        self.st.lock().unwrap_or_else(|e| e.into_inner()).hook = h;
+    }
+    fn log(&self) -> Vec<OpRec> {
+        self.st.lock().unwrap_or_else(|e| e.into_inner()).log.clone()
+    }
+    fn log_len(&self) -> usize {
+        self.st.lock().unwrap_or_else(|e| e.into_inner()).log.len()
+    }
+    fn mark(&self, name: &str) {
+        let _ = self.exists(Path::new(name));
+    }
+    /// hook first (may block the calling thread), then operation + log record in one step
+    fn op<R>(&self, kind: OpKind, path: &Path, data: Option<&[u8]>, f: impl FnOnce() -> (R, bool)) -> R {
+        let p = path.to_string_lossy().to_string();
+        let thread = thread_name();
+        let hook = self.st.lock().unwrap_or_else(|e| e.into_inner()).hook.clone();
+        if let Some(h) = hook {
+            h(&OpRec { seq: 0, thread: thread.clone(), kind, path: p.clone(), len: 0, ok: true, faulted: false, data: None });
+        }
+        let mut g = self.st.lock().unwrap_or_else(|e| e.into_inner());
+        let (res, ok) = f();
+        g.seq += 1;
+        let seq = g.seq;
+        g.log.push(OpRec { seq, thread, kind, path: p, len: data.map(|d| d.len()).unwrap_or(0), ok, faulted: false, data: data.map(|d| d.to_vec()) });
+        res
+    }
+}
+
+impl Directory for GDir {
+    fn get_file_handle(&self, path: &Path) -> Result<Arc<dyn FileHandle>, OpenReadError> {
+        let inner = self.op(OpKind::OpenRead, path, None, || {
+            let r = self.inner.get_file_handle(path);
+            let ok = r.is_ok();
+            (r, ok)
+        })?;
+        Ok(Arc::new(GHandle { inner, path: path.to_string_lossy().to_string(), hook: self.read_hook.clone() }))
+    }
+    fn delete(&self, path: &Path) -> Result<(), DeleteError> {
+        self.op(OpKind::Delete, path, None, || {
+            let r = self.inner.delete(path);
+            let ok = r.is_ok();
+            (r, ok)
+        })
+    }
+    fn exists(&self, path: &Path) -> Result<bool, OpenReadError> {
+        self.op(OpKind::Exists, path, None, || {
+            let r = self.inner.exists(path);
+            let ok = r.is_ok();
+            (r, ok)
+        })
+    }
+    fn open_write(&self, path: &Path) -> Result<WritePtr, OpenWriteError> {
+        self.op(OpKind::OpenWrite, path, None, || {
+            let r = self.inner.open_write(path);
+            let ok = r.is_ok();
+            (r, ok)
+        })
+    }
+    fn atomic_read(&self, path: &Path) -> Result<Vec<u8>, OpenReadError> {
+        self.op(OpKind::AtomicRead, path, None, || {
+            let r = self.inner.atomic_read(path);
+            let ok = r.is_ok();
+            (r, ok)
+        })
+    }
+    fn atomic_write(&self, path: &Path, data: &[u8]) -> std::io::Result<()> {
+        self.op(OpKind::AtomicWrite, path, Some(data), || {
+            let r = self.inner.atomic_write(path, data);
+            let ok = r.is_ok();
+            (r, ok)
+        })
+    }
+    fn sync_directory(&self) -> std::io::Result<()> {
+        self.inner.sync_directory()
+    }
+    fn watch(&self, cb: WatchCallback) -> tantivy::Result<WatchHandle> {
+        self.inner.watch(cb)
+    }
+}
+
+/// `GDir` over an `MmapDirectory` in a tempdir: files are really unlinked under open searchers
+/// and META_LOCK is the `flock` of `MmapDirectory::acquire_lock`; acquisition and release are
+/// logged as the creation / deletion of the lock file so that traces read the same.
+#[derive(Clone, Debug)]
+struct MDir(GDir);
+
+struct MGuard {
+    inner: Option<DirectoryLock>,
+    dir: GDir,
+    path: String,
+}
+
+impl Drop for MGuard {
+    fn drop(&mut self) {
+        self.dir.pre_hook(OpKind::Delete, &self.path);
+        let mut g = self.dir.st.lock().unwrap_or_else(|e| e.into_inner());
+        drop(self.inner.take());
+        g.seq += 1;
+        let seq = g.seq;
+        g.log.push(OpRec { seq, thread: thread_name(), kind: OpKind::Delete, path: self.path.clone(), len: 0, ok: true, faulted: false, data: None });
+    }
+}
+
+impl Directory for MDir {
+    fn get_file_handle(&self, path: &Path) -> Result<Arc<dyn FileHandle>, OpenReadError> {
+        self.0.get_file_handle(path)
+    }
+    fn delete(&self, path: &Path) -> Result<(), DeleteError> {
+        self.0.delete(path)
+    }
+    fn exists(&self, path: &Path) -> Result<bool, OpenReadError> {
+        self.0.exists(path)
+    }
+    fn open_write(&self, path: &Path) -> Result<WritePtr, OpenWriteError> {
+        self.0.open_write(path)
+    }
+    fn atomic_read(&self, path: &Path) -> Result<Vec<u8>, OpenReadError> {
+        self.0.atomic_read(path)
+    }
+    fn atomic_write(&self, path: &Path, data: &[u8]) -> std::io::Result<()> {
+        self.0.atomic_write(path, data)
+    }
+    fn sync_directory(&self) -> std::io::Result<()> {
+        self.0.sync_directory()
+    }
+    fn watch(&self, cb: WatchCallback) -> tantivy::Result<WatchHandle> {
+        self.0.watch(cb)
+    }
+    fn acquire_lock(&self, lock: &Lock) -> Result<DirectoryLock, LockError> {
+        let path = lock.filepath.to_string_lossy().to_string();
+        if path != LOCK {
+            return self.0.inner.acquire_lock(lock);
+        }
+        self.0.pre_hook(OpKind::OpenWrite, &path);
+        {
+            // flock blocks silently: leave a trace of the attempt (ignored by the translation)
+            let mut g = self.0.st.lock().unwrap_or_else(|e| e.into_inner());
+            g.seq += 1;
+            let seq = g.seq;
+            g.log.push(OpRec { seq, thread: thread_name(), kind: OpKind::Exists, path: MARK_ATTEMPT.to_string(), len: 0, ok: true, faulted: false, data: None });
+        }
+        let l = self.0.inner.acquire_lock(lock)?;
+        {
+            let mut g = self.0.st.lock().unwrap_or_else(|e| e.into_inner());
+            g.seq += 1;
+            let seq = g.seq;
+            g.log.push(OpRec { seq, thread: thread_name(), kind: OpKind::OpenWrite, path: path.clone(), len: 0, ok: true, faulted: false, data: None });
+        }
+        Ok(DirectoryLock::from(Box::new(MGuard { inner: Some(l), dir: self.0.clone(), path })))
+    }
+}
+
+/// the directory a scenario runs on
+struct Store {
+    g: GDir,
+    mmap: Option<tempfile::TempDir>,
+}
+
+impl Store {
+    fn new(mmap: bool) -> Store {
+        if mmap {
+            let t = tempfile::tempdir().unwrap();
+            let g = GDir::over(Box::new(MmapDirectory::open(t.path()).unwrap()));
+            Store { g, mmap: Some(t) }
+        } else {
+            Store { g: GDir::new(), mmap: None }
+        }
+    }
+    fn dir(&self) -> Box<dyn Directory> {
+        if self.mmap.is_some() { Box::new(MDir(self.g.clone())) } else { Box::new(self.g.clone()) }
+    }
+}
+
+fn on_thread<T: Send + 'static>(name: &str, f: impl FnOnce() -> T + Send + 'static) -> std::thread::Result<T> {
+    std::thread::Builder::new().name(name.to_string()).spawn(f).expect("spawn").join()
+}
+
+// ------------------------------------------------------------------------------------------
+// the harness's own model of the documents
+// ------------------------------------------------------------------------------------------
+#[derive(Clone, Debug, PartialEq)]
+struct DocM {
+    body: String,
+    num: i64,
+}
+type Docs = BTreeMap<u64, DocM>;
+
+#[derive(Clone, Copy)]
+struct Fields {
+    id: Field,
+    body: Field,
+    num: Field,
+    tag: Field,
+}
+
+fn schema() -> (Schema, Fields) {
+    let mut sb = Schema::builder();
+    let id = sb.add_u64_field("id", FAST | INDEXED | STORED);
+    let body = sb.add_text_field("body", TEXT | STORED);
+    let num = sb.add_i64_field("num", FAST | STORED);
+    let tag = sb.add_text_field("tag", STRING | FAST);
+    (sb.build(), Fields { id, body, num, tag })
+}
+
+fn fields_of(index: &Index) -> Fields {
+    let s = index.schema();
+    Fields {
+        id: s.get_field("id").unwrap(),
+        body: s.get_field("body").unwrap(),
+        num: s.get_field("num").unwrap(),
+        tag: s.get_field("tag").unwrap(),
+    }
+}
+
+struct World {
+    index: Index,
+    writer: Option<IndexWriter>,
+    f: Fields,
+    live: Docs,
+    committed: Docs,
+    by_opstamp: HashMap<u64, Arc<Docs>>,
+    next_id: u64,
+    ops: Vec<String>,
+}
+
+impl World {
+    fn create(dir: Box<dyn Directory>) -> World {
+        let (schema, f) = schema();
+        let index = Index::create(dir, schema, Default::default()).unwrap();
+        let mut by_opstamp = HashMap::new();
+        by_opstamp.insert(0u64, Arc::new(Docs::new()));
+        let mut w = World { index, writer: None, f, live: Docs::new(), committed: Docs::new(), by_opstamp, next_id: 1, ops: vec![] };
+        w.new_writer();
+        w
+    }
+    fn new_writer(&mut self) {
+        let w: IndexWriter = self.index.writer_with_num_threads(1, 15_000_000).unwrap();
+        w.set_merge_policy(Box::new(NoMergePolicy));
+        self.writer = Some(w);
+    }
+    fn w(&mut self) -> &mut IndexWriter {
+        if self.writer.is_none() {
+            self.new_writer();
+        }
+        self.writer.as_mut().unwrap()
+    }
+    fn add(&mut self, rng: &mut Rng, n: usize) {
+        for _ in 0..n {
+            let len = 1 + rng.usize_below(6);
+            let body: Vec<&str> = (0..len).map(|_| *rng.pick(&WORDS)).collect();
+            let body = body.join(" ");
+            let id = self.next_id;
+            self.next_id += 1;
+            let num = (rng.below(2001) as i64) - 1000;
+            let mut d = TantivyDocument::default();
+            d.add_u64(self.f.id, id);
+            d.add_text(self.f.body, &body);
+            d.add_i64(self.f.num, num);
+            d.add_text(self.f.tag, &format!("t{}", id % 5));
+            let f = self.f;
+            let _ = f;
+            self.w().add_document(d).unwrap();
+            self.live.insert(id, DocM { body, num });
+        }
+        self.ops.push(format!("add{n}"));
+    }
+    fn delete_some(&mut self, rng: &mut Rng, n: usize) {
+        // only documents of earlier commits (a delete of a document added in the same
+        // transaction is C02's subject)
+        let ids: Vec<u64> = self.committed.keys().filter(|k| self.live.contains_key(k)).cloned().collect();
+        if ids.is_empty() {
+            return;
+        }
+        for _ in 0..n {
+            let id = *rng.pick(&ids);
+            let t = Term::from_field_u64(self.f.id, id);
+            self.w().delete_term(t);
+            self.live.remove(&id);
+        }
+        self.ops.push(format!("del{n}"));
+    }
+    fn commit(&mut self) -> u64 {
+        let op = self.w().commit().unwrap();
+        self.committed = self.live.clone();
+        self.by_opstamp.insert(op, Arc::new(self.committed.clone()));
+        self.ops.push("commit".into());
+        op
+    }
+    fn rollback(&mut self) {
+        self.w().rollback().unwrap();
+        self.live = self.committed.clone();
+        self.ops.push("rollback".into());
+    }
+    fn merge_all(&mut self) {
+        let ids = self.index.searchable_segment_ids().unwrap();
+        if ids.len() >= 2 {
+            let _ = self.w().merge(&ids).wait();
+            self.ops.push(format!("merge{}", ids.len()));
+        }
+    }
+    fn gc(&mut self) {
+        let _ = self.w().garbage_collect_files().wait();
+        self.ops.push("gc".into());
+    }
+    fn drop_writer(&mut self) {
+        if let Some(w) = self.writer.take() {
+            let _ = w.wait_merging_threads();
+        }
+        self.live = self.committed.clone();
+        self.ops.push("dropwriter".into());
+    }
+    /// one random writer-side operation
+    fn random_op(&mut self, rng: &mut Rng) -> &'static str {
+        match rng.below(12) {
+            0..=2 => {
+                let n = [1usize, 2, 5, 17][rng.usize_below(4)];
+                self.add(rng, n);
+                self.commit();
+                "add+commit"
+            }
+            3 => {
+                { let n_ = 1 + rng.usize_below(3); self.delete_some(rng, n_) };
+                self.commit();
+                "delete+commit"
+            }
+            4 => {
+                self.add(rng, 3);
+                self.delete_some(rng, 2);
+                self.commit();
+                "add+delete+commit"
+            }
+            5..=6 => {
+                self.merge_all();
+                "merge"
+            }
+            7 => {
+                self.add(rng, 4);
+                self.rollback();
+                "add+rollback"
+            }
+            8 => {
+                self.gc();
+                "gc"
+            }
+            9 => {
+                self.add(rng, 2);
+                self.drop_writer();
+                "add+dropwriter"
+            }
+            10 => {
+                { let n_ = 1 + rng.usize_below(4); self.add(rng, n_) };
+                self.commit();
+                self.merge_all();
+                self.gc();
+                "commit+merge+gc"
+            }
+            _ => {
+                self.commit();
+                "empty-commit"
+            }
+        }
+    }
+}
+
+// ------------------------------------------------------------------------------------------
+// observing a searcher
+// ------------------------------------------------------------------------------------------
+type Sig = Vec<(String, Option<u64>)>;
+
+fn sig_of(s: &Searcher) -> Sig {
+    let mut v: Sig = s.segment_readers().iter().map(|r| (r.segment_id().uuid_string(), r.delete_opstamp())).collect();
+    v.sort();
+    v
+}
+
+fn body_query(f: Fields, w: &str) -> TermQuery {
+    TermQuery::new(Term::from_field_text(f.body, w), IndexRecordOption::WithFreqs)
+}
+
+/// everything observable we look at, as one canonical string
+fn fingerprint(s: &Searcher, f: Fields) -> Result<String, String> {
+    let r = catch_unwind(AssertUnwindSafe(|| -> Result<String, String> {
+        let mut out = String::new();
+        out.push_str(&format!("n={};", s.num_docs()));
+        let mut rows: Vec<(u64, i64, String, u64)> = vec![];
+        for (ord, seg) in s.segment_readers().iter().enumerate() {
+            let idc = seg.fast_fields().u64("id").map_err(|e| e.to_string())?;
+            let numc = seg.fast_fields().i64("num").map_err(|e| e.to_string())?;
+            let tagc = seg.fast_fields().str("tag").map_err(|e| e.to_string())?.ok_or("no tag column")?;
+            for doc in seg.doc_ids_alive() {
+                let id = idc.first(doc).ok_or("id missing")?;
+                let num = numc.first(doc).ok_or("num missing")?;
+                let mut tag = String::new();
+                if let Some(o) = tagc.term_ords(doc).next() {
+                    tagc.ord_to_str(o, &mut tag).map_err(|e| e.to_string())?;
+                }
+                let d: TantivyDocument = s.doc(tantivy::DocAddress::new(ord as u32, doc)).map_err(|e| e.to_string())?;
+                let sid = d.get_first(f.id).and_then(|v| v.as_u64()).ok_or("stored id missing")?;
+                let body = d.get_first(f.body).and_then(|v| v.as_str()).ok_or("stored body missing")?.to_string();
+                rows.push((id, num, format!("{tag}|{body}"), sid));
+            }
+        }
+        rows.sort();
+        for (id, num, tb, sid) in &rows {
+            out.push_str(&format!("{id},{num},{tb},{sid};"));
+        }
+        for w in WORDS {
+            let c = s.search(&body_query(f, w), &Count).map_err(|e| e.to_string())?;
+            let df = s.doc_freq(&Term::from_field_text(f.body, w)).map_err(|e| e.to_string())?;
+            out.push_str(&format!("{w}={c}/{df};"));
+        }
+        let pq = PhraseQuery::new(vec![Term::from_field_text(f.body, "apple"), Term::from_field_text(f.body, "berry")]);
+        out.push_str(&format!("ph={};", s.search(&pq, &Count).map_err(|e| e.to_string())?));
+        let bq = BooleanQuery::new(vec![
+            (Occur::Should, Box::new(body_query(f, "cedar")) as Box<dyn Query>),
+            (Occur::Should, Box::new(body_query(f, "delta")) as Box<dyn Query>),
+        ]);
+        let top = s.search(&bq, &TopDocs::with_limit(5).order_by_score()).map_err(|e| e.to_string())?;
+        for (score, addr) in top {
+            out.push_str(&format!("t{}:{}:{:08x};", addr.segment_ord, addr.doc_id, score.to_bits()));
+        }
+        Ok(out)
+    }));
+    match r {
+        Ok(x) => x,
+        Err(_) => Err("PANIC".into()),
+    }
+}
+
+/// the searcher shows exactly the documents `docs` (ids, stored fields, fast fields, term and
+/// phrase counts)
+fn matches_docs(s: &Searcher, f: Fields, docs: &Docs) -> Result<(), String> {
+    let r = catch_unwind(AssertUnwindSafe(|| -> Result<(), String> {
+        if s.num_docs() as usize != docs.len() {
+            return Err(format!("num_docs {} expected {}", s.num_docs(), docs.len()));
+        }
+        let mut seen: BTreeSet<u64> = BTreeSet::new();
+        for (ord, seg) in s.segment_readers().iter().enumerate() {
+            let idc = seg.fast_fields().u64("id").map_err(|e| e.to_string())?;
+            let numc = seg.fast_fields().i64("num").map_err(|e| e.to_string())?;
+            for doc in seg.doc_ids_alive() {
+                let id = idc.first(doc).ok_or("id missing")?;
+                let m = docs.get(&id).ok_or(format!("document id {id} is not in the commit"))?;
+                if !seen.insert(id) {
+                    return Err(format!("document id {id} twice"));
+                }
+                if numc.first(doc) != Some(m.num) {
+                    return Err(format!("fast field num of id {id}"));
+                }
+                let d: TantivyDocument = s.doc(tantivy::DocAddress::new(ord as u32, doc)).map_err(|e| e.to_string())?;
+                if d.get_first(f.body).and_then(|v| v.as_str()) != Some(m.body.as_str()) {
+                    return Err(format!("stored body of id {id}"));
+                }
+                if d.get_first(f.id).and_then(|v| v.as_u64()) != Some(id) {
+                    return Err(format!("stored id of id {id}"));
+                }
+            }
+        }
+        if seen.len() != docs.len() {
+            return Err(format!("{} ids seen, {} expected", seen.len(), docs.len()));
+        }
+        for w in ["apple", "ember", "heath"] {
+            let exp = docs.values().filter(|d| d.body.split(' ').any(|x| x == w)).count();
+            let c = s.search(&body_query(f, w), &Count).map_err(|e| e.to_string())?;
+            if c != exp {
+                return Err(format!("count({w}) = {c}, expected {exp}"));
+            }
+        }
+        let exp = docs.values().filter(|d| d.body.contains("apple berry")).count();
+        let pq = PhraseQuery::new(vec![Term::from_field_text(f.body, "apple"), Term::from_field_text(f.body, "berry")]);
+        let c = s.search(&pq, &Count).map_err(|e| e.to_string())?;
+        if c != exp {
+            return Err(format!("phrase count = {c}, expected {exp}"));
+        }
+        Ok(())
+    }));
+    match r {
+        Ok(x) => x,
+        Err(_) => Err("PANIC".into()),
+    }
+}
+
+// ------------------------------------------------------------------------------------------
+// metas written so far (from the log) and translation of a log into model events
+// ------------------------------------------------------------------------------------------
+#[derive(Clone, Debug)]
+struct MetaRec {
+    opstamp: u64,
+    sig: Sig,
+}
+
+fn parse_meta(data: &[u8]) -> Option<MetaRec> {
+    let v: Value = serde_json::from_slice(data).ok()?;
+    let mut sig: Sig = vec![];
+    for s in v["segments"].as_array()? {
+        let id = s["segment_id"].as_str()?.replace('-', "");
+        let del = s["deletes"]["opstamp"].as_u64();
+        sig.push((id, del));
+    }
+    sig.sort();
+    Some(MetaRec { opstamp: v["opstamp"].as_u64()?, sig })
+}
+
+fn metas_of(log: &[OpRec]) -> Vec<MetaRec> {
+    log.iter()
+        .filter(|r| r.kind == OpKind::AtomicWrite && r.path == META)
+        .filter_map(|r| r.data.as_ref().and_then(|d| parse_meta(d)))
+        .collect()
+}
+
+fn meta_files(m: &MetaRec) -> Vec<String> {
+    let mut v = vec![];
+    for (id, del) in &m.sig {
+        for ext in ["term", "store", "idx", "pos", "fast", "fieldnorm"] {
+            v.push(format!("{id}.{ext}"));
+        }
+        if let Some(o) = del {
+            v.push(format!("{id}.{o}.del"));
+        }
+    }
+    v
+}
+
+fn reader_of_thread(name: &str) -> Option<u64> {
+    if name == "watch-callbacks" {
+        return Some(900);
+    }
+    let rest = name.strip_prefix("c05-rd-")?;
+    rest.split('-').next()?.parse().ok()
+}
+
+struct Trace {
+    events: Vec<String>,
+    /// (reader, call) in order of acquisition, with the thread that ran it
+    sessions: Vec<(u64, u64, String)>,
+    readers: BTreeSet<u64>,
+}
+
+/// `gc_livings`: living sets returned by harness-supplied GC closures, in call order;
+/// `pub_marks`: publications observed from outside (no marker in the log): (log length at the
+/// observation, reader, call), sorted by position
+fn translate(log: &[OpRec], gc_livings: &[Vec<String>], pub_marks: &[(usize, u64, u64)]) -> Trace {
+    let mut ids: HashMap<String, usize> = HashMap::new();
+    let mut pid = |p: &str| -> usize {
+        let n = ids.len() + 1;
+        *ids.entry(p.to_string()).or_insert(n)
+    };
+    let mut ev: Vec<String> = vec![];
+    let mut created: BTreeSet<String> = BTreeSet::new();
+    let mut present: BTreeSet<String> = BTreeSet::new();
+    let mut next_k: HashMap<u64, u64> = HashMap::new();
+    let mut cur: HashMap<String, (u64, u64)> = HashMap::new();
+    let mut sessions = vec![];
+    let mut readers = BTreeSet::new();
+    let mut metas_seen = 0usize;
+    let mut gl_seen_in_section: HashMap<String, bool> = HashMap::new();
+    let mut gc_idx = 0usize;
+    let fmt_list = |v: &[usize]| -> String {
+        if v.is_empty() { "-".to_string() } else { v.iter().map(|x| x.to_string()).collect::<Vec<_>>().join(",") }
+    };
+    let mut next_mark = 0usize;
+    for (i, r) in log.iter().enumerate() {
+        while next_mark < pub_marks.len() && pub_marks[next_mark].0 <= i {
+            ev.push(format!("p.{}.{}", pub_marks[next_mark].1, pub_marks[next_mark].2));
+            next_mark += 1;
+        }
+        let rd = reader_of_thread(&r.thread);
+        let is_lock = r.path == LOCK;
+        match (rd, r.kind) {
+            (Some(rho), OpKind::OpenWrite) if is_lock => {
+                if r.ok {
+                    let k = next_k.entry(rho).or_insert(0);
+                    cur.insert(r.thread.clone(), (rho, *k));
+                    sessions.push((rho, *k, r.thread.clone()));
+                    readers.insert(rho);
+                    ev.push(format!("a.{rho}.{k}"));
+                    *k += 1;
+                }
+            }
+            (Some(rho), OpKind::Delete) if is_lock => {
+                let (_, k) = cur.get(&r.thread).cloned().unwrap_or((rho, 9999));
+                ev.push(format!("r.{rho}.{k}"));
+            }
+            (Some(rho), OpKind::AtomicRead) if r.path == META => {
+                let (_, k) = cur.get(&r.thread).cloned().unwrap_or((rho, 9999));
+                ev.push(format!("l.{rho}.{k}"));
+            }
+            (Some(rho), OpKind::OpenRead) => {
+                let (_, k) = cur.get(&r.thread).cloned().unwrap_or((rho, 9999));
+                ev.push(format!("o.{rho}.{k}.{}", pid(&r.path)));
+            }
+            (Some(rho), OpKind::Exists) if r.path == MARK_PUB => {
+                let (_, k) = cur.get(&r.thread).cloned().unwrap_or((rho, 9999));
+                ev.push(format!("p.{rho}.{k}"));
+            }
+            (Some(_), _) => {}
+            (None, OpKind::OpenWrite) if is_lock => {
+                if r.ok {
+                    ev.push("ga".into());
+                    gl_seen_in_section.insert(r.thread.clone(), false);
+                }
+            }
+            (None, OpKind::Exists) if r.path == MARK_GCLIST => {
+                let living: Vec<usize> = gc_livings.get(gc_idx).map(|l| l.iter().map(|p| pid(p)).collect()).unwrap_or_default();
+                gc_idx += 1;
+                ev.push(format!("gl.{}", fmt_list(&living)));
+                gl_seen_in_section.insert(r.thread.clone(), true);
+            }
+            (None, OpKind::Delete) if is_lock => {
+                if !gl_seen_in_section.get(&r.thread).cloned().unwrap_or(false) {
+                    // the living set of the real writer is computed in memory; it is reconstructed
+                    // as "everything present that this GC round does not delete afterwards"
+                    let mut doomed: BTreeSet<&str> = BTreeSet::new();
+                    for q in &log[i + 1..] {
+                        if q.thread != r.thread {
+                            continue;
+                        }
+                        if q.kind == OpKind::OpenWrite && q.path == LOCK {
+                            break;
+                        }
+                        if q.kind == OpKind::Delete && q.ok && q.path != LOCK {
+                            doomed.insert(q.path.as_str());
+                        }
+                    }
+                    let living: Vec<usize> = present.iter().filter(|p| !doomed.contains(&p[..])).map(|p| pid(p)).collect();
+                    ev.push(format!("gl.{}", fmt_list(&living)));
+                }
+                ev.push("gr".into());
+            }
+            (None, OpKind::OpenWrite) => {
+                if r.ok && !r.path.starts_with('.') {
+                    let p = pid(&r.path);
+                    ev.push(format!("c.{p}.{p}"));
+                    created.insert(r.path.clone());
+                    present.insert(r.path.clone());
+                }
+            }
+            (None, OpKind::AtomicWrite) if r.path == META => {
+                if let Some(m) = r.data.as_ref().and_then(|d| parse_meta(d)) {
+                    metas_seen += 1;
+                    if metas_seen > 1 {
+                        let files: Vec<usize> = meta_files(&m).iter().filter(|p| created.contains(*p)).map(|p| pid(p)).collect();
+                        ev.push(format!("s.{}", fmt_list(&files)));
+                    }
+                }
+            }
+            (None, OpKind::Delete) => {
+                if r.ok && !r.path.starts_with('.') {
+                    ev.push(format!("gd.{}", pid(&r.path)));
+                    present.remove(&r.path);
+                }
+            }
+            _ => {}
+        }
+    }
+    while next_mark < pub_marks.len() {
+        ev.push(format!("p.{}.{}", pub_marks[next_mark].1, pub_marks[next_mark].2));
+        next_mark += 1;
+    }
+    Trace { events: ev, sessions, readers }
+}
+
+struct ModelVerdict {
+    raw: String,
+    ok: bool,
+    /// (reader, call) -> j
+    pubs: Vec<((u64, u64), u64)>,
+    loads: HashMap<(u64, u64), u64>,
+    badopens: usize,
+}
+
+fn ask_trace(ctx: &mut Ctx, disc: &str, tr: &Trace) -> ModelVerdict {
+    let evs = if tr.events.is_empty() { "-".to_string() } else { tr.events.join(";") };
+    let raw = ctx.model.ask(&format!("C05 trace {disc} {evs}"));
+    let mut ok = false;
+    let mut pubs = vec![];
+    let mut loads = HashMap::new();
+    let mut badopens = 0;
+    let triple = |t: &str| -> Option<((u64, u64), u64)> {
+        let p: Vec<&str> = t.split('.').collect();
+        if p.len() != 3 {
+            return None;
+        }
+        Some(((p[0].parse().ok()?, p[1].parse().ok()?), p[2].parse().ok()?))
+    };
+    for (i, part) in raw.split(' ').enumerate() {
+        if i == 0 {
+            ok = part == "ok";
+        } else if let Some(x) = part.strip_prefix("pubs=") {
+            if x != "-" {
+                pubs = x.split(',').filter_map(triple).collect();
+            }
+        } else if let Some(x) = part.strip_prefix("loads=") {
+            if x != "-" {
+                loads = x.split(',').filter_map(triple).collect();
+            }
+        } else if let Some(x) = part.strip_prefix("badopens=") {
+            if x != "-" {
+                badopens = x.split(',').count();
+            }
+        }
+    }
+    ModelVerdict { raw, ok, pubs, loads, badopens }
+}
+
+/// (sequential?, monotone?) of reader `rho` on the trace, decided by the model
+fn ask_seq(ctx: &mut Ctx, rho: u64, tr: &Trace) -> (bool, bool, String) {
+    let evs = if tr.events.is_empty() { "-".to_string() } else { tr.events.join(";") };
+    let raw = ctx.model.ask(&format!("C05 seq {rho} {evs}"));
+    (raw.contains("seq=1"), raw.contains("mono=1"), raw)
+}
+
+/// what a reader thread reports for one reload
+#[derive(Clone, Debug)]
+struct Obs {
+    ok: bool,
+    err: String,
+    sig: Sig,
+    check: Option<Searcher>,
+}
+
+fn do_reload(gdir: &GDir, reader: &IndexReader) -> Obs {
+    let r = catch_unwind(AssertUnwindSafe(|| reader.reload()));
+    match r {
+        Ok(Ok(())) => {
+            gdir.mark(MARK_PUB);
+            let s = reader.searcher();
+            Obs { ok: true, err: String::new(), sig: sig_of(&s), check: Some(s) }
+        }
+        Ok(Err(e)) => Obs { ok: false, err: format!("{e}"), sig: vec![], check: None },
+        Err(_) => Obs { ok: false, err: "PANIC".into(), sig: vec![], check: None },
+    }
+}
+
+fn candidates(metas: &[MetaRec], sig: &Sig) -> Vec<usize> {
+    metas.iter().enumerate().filter(|(_, m)| &m.sig == sig).map(|(j, _)| j).collect()
+}
+
+/// judge one successful reload against the list of metas: exactly one commit, the right docs
+fn judge_obs(ctx: &mut Ctx, what: &str, obs: &Obs, metas: &[MetaRec], by_opstamp: &HashMap<u64, Arc<Docs>>, f: Fields, jmin: usize, jmax: usize, case: &Value) -> Option<usize> {
+    let cands = candidates(metas, &obs.sig);
+    if cands.is_empty() {
+        ctx.report.violation("oracle", "C05:reload-mixes-commits", format!("{what}: the searcher's segment set {:?} is the segment set of no meta.json ever written (mixture or uncommitted segment)", obs.sig), case.clone());
+        return None;
+    }
+    let j = match cands.iter().cloned().filter(|j| *j >= jmin && *j <= jmax).next() {
+        Some(j) => j,
+        None => {
+            ctx.report.violation("oracle", "C05:reload-not-a-current-commit", format!("{what}: reload produced meta {:?} but the metas current during the reload were {jmin}..={jmax}", cands), case.clone());
+            return None;
+        }
+    };
+    if let (Some(s), Some(docs)) = (obs.check.as_ref(), by_opstamp.get(&metas[j].opstamp)) {
+        if let Err(e) = matches_docs(s, f, docs) {
+            let key = if e == "PANIC" { "C05:panic" } else { "C05:searcher-docs-differ-from-commit" };
+            ctx.report.violation("oracle", key, format!("{what}: searcher of meta {j} (opstamp {}): {e}", metas[j].opstamp), case.clone());
+            return None;
+        }
+    }
+    Some(j)
+}
+
+// ------------------------------------------------------------------------------------------
+// (b) held-searcher fingerprints
+// ------------------------------------------------------------------------------------------
+struct Held {
+    s: Searcher,
+    fp: String,
+    taken_at: usize,
+    from: &'static str,
+}
+
+fn scenario_fingerprint(ctx: &mut Ctx, seed: u64, mmap: bool, steps: usize) {
+    let mut rng = Rng::new(seed);
+    let case = json!({"scenario": "fingerprint", "seed": seed, "mmap": mmap, "steps": steps});
+    let tmp = if mmap { Some(tempfile::tempdir().unwrap()) } else { None };
+    let gdir = GDir::new();
+    let dir: Box<dyn Directory> = match &tmp {
+        Some(t) => Box::new(MmapDirectory::open(t.path()).unwrap()),
+        None => Box::new(gdir.clone()),
+    };
+    let mut w = World::create(dir);
+    let f = w.f;
+    for _ in 0..1 + rng.usize_below(3) {
+        let n = [1usize, 3, 20, 60][rng.usize_below(4)];
+        w.add(&mut rng, n);
+        w.commit();
+    }
+    let open_second = |w: &World| -> Index {
+        match &tmp {
+            Some(t) => Index::open_in_dir(t.path()).unwrap(),
+            None => Index::open(gdir.clone()).unwrap(),
+        }
+        .tap(|_| { let _ = w; })
+    };
+    let second = open_second(&w);
+    let r1: IndexReader = w.index.reader().unwrap();
+    let r2: IndexReader = second.reader_builder().reload_policy(ReloadPolicy::Manual).try_into().unwrap();
+    let mut readers: Vec<Option<IndexReader>> = vec![Some(r1), Some(r2)];
+    let mut held: Vec<Held> = vec![];
+    let take = |held: &mut Vec<Held>, ctx: &mut Ctx, rd: &IndexReader, from: &'static str, step: usize, docs: Option<&Docs>| {
+        let s = rd.searcher();
+        match fingerprint(&s, f) {
+            Ok(fp) => {
+                if let Some(d) = docs {
+                    if let Err(e) = matches_docs(&s, f, d) {
+                        // the OnCommitWithDelay reader may lag; only a Manual reader just reloaded is compared
+                        if from == "second-index-manual" {
+                            ctx.report.violation("oracle", "C05:searcher-docs-differ-from-commit", format!("fresh searcher ({from}): {e}"), case.clone());
+                        }
+                    }
+                }
+                held.push(Held { s, fp, taken_at: step, from });
+            }
+            Err(e) => ctx.report.violation("oracle", if e == "PANIC" { "C05:panic" } else { "C05:held-searcher-error" }, format!("fingerprint of a fresh searcher ({from}) failed: {e}"), case.clone()),
+        }
+    };
+    take(&mut held, ctx, readers[0].as_ref().unwrap(), "writer-index-oncommit", 0, None);
+    take(&mut held, ctx, readers[1].as_ref().unwrap(), "second-index-manual", 0, Some(&w.committed));
+    for step in 1..=steps {
+        let op = if step == steps { w.drop_writer(); "final-dropwriter" } else { w.random_op(&mut rng) };
+        ctx.report.count(&format!("fp-op:{op}"));
+        // the directory after the operation: were files of held searchers deleted?
+        for (hi, h) in held.iter().enumerate() {
+            let again = fingerprint(&h.s, f);
+            let files_gone = match &tmp {
+                Some(t) => h.s.segment_readers().iter().any(|sr| !t.path().join(format!("{}.store", sr.segment_id().uuid_string())).exists()),
+                None => h.s.segment_readers().iter().any(|sr| !gdir.inner.exists(Path::new(&format!("{}.store", sr.segment_id().uuid_string()))).unwrap_or(true)),
+            };
+            if files_gone {
+                ctx.report.count("fp:recheck-after-files-deleted");
+            }
+            ctx.report.case(&format!("fp|{seed}|{mmap}|{hi}|{step}"), files_gone || step > h.taken_at);
+            match again {
+                Ok(fp) if fp == h.fp => {}
+                Ok(fp) => {
+                    let at = fp.bytes().zip(h.fp.bytes()).position(|(a, b)| a != b).unwrap_or(0);
+                    ctx.report.violation("oracle", "C05:held-searcher-changed", format!("searcher from {} taken at step {} answers differently after step {step} ({op}); first difference at byte {at}: {:?} vs {:?}", h.from, h.taken_at, &h.fp[at.saturating_sub(20)..(at + 30).min(h.fp.len())], &fp[at.saturating_sub(20)..(at + 30).min(fp.len())]), case.clone());
+                }
+                Err(e) => ctx.report.violation("oracle", if e == "PANIC" { "C05:panic" } else { "C05:held-searcher-error" }, format!("searcher from {} taken at step {} fails after step {step} ({op}): {e}", h.from, h.taken_at), case.clone()),
+            }
+        }
+        // now and then: reload and hold one more searcher; drop a reader while its searcher is held
+        if rng.chance(1, 3) && held.len() < 6 {
+            if let Some(rd) = readers[1].as_ref() {
+                match catch_unwind(AssertUnwindSafe(|| rd.reload())) {
+                    Ok(Ok(())) => take(&mut held, ctx, rd, "second-index-manual", step, Some(&w.committed)),
+                    Ok(Err(e)) => ctx.report.violation("model", "C05:reload-failed-quiescent", format!("reload at a quiescent point failed: {e}"), case.clone()),
+                    Err(_) => ctx.report.violation("oracle", "C05:panic", "reload panicked".into(), case.clone()),
+                }
+            }
+        }
+        if rng.chance(1, 8) {
+            let i = rng.usize_below(2);
+            if readers[i].take().is_some() {
+                ctx.report.count("fp:reader-dropped-searcher-held");
+            }
+        }
+    }
+    if ctx.report.samples.len() < 2 {
+        ctx.report.sample(json!({"scenario": "fingerprint", "mmap": mmap, "ops": w.ops, "held_searchers": held.len(), "fingerprint_prefix": held.first().map(|h| h.fp.chars().take(160).collect::<String>())}));
+    }
+}
+
+trait Tap: Sized {
+    fn tap(self, f: impl FnOnce(&Self)) -> Self {
+        f(&self);
+        self
+    }
+}
+impl<T> Tap for T {}
+
+// ------------------------------------------------------------------------------------------
+// (a)+(d) concurrent readers and writer, trace checked by the model
+// ------------------------------------------------------------------------------------------
+fn check_trace(ctx: &mut Ctx, what: &str, gdir: &GDir, gc_livings: &[Vec<String>], observed: &[((u64, u64), Obs)], w: &World, pub_marks: &[(usize, u64, u64)], case: &Value) -> (Trace, Vec<MetaRec>) {
+    let log = gdir.log();
+    let metas = metas_of(&log);
+    let tr = translate(&log, gc_livings, pub_marks);
+    let v = ask_trace(ctx, "full", &tr);
+    ctx.report.traces_validated_against_impl += 1;
+    ctx.report.count_n("trace:events", tr.events.len() as u64);
+    ctx.report.count_n("trace:reload-sessions", tr.sessions.len() as u64);
+    if !v.ok {
+        let idx: usize = v.raw.split(' ').next().and_then(|x| x.strip_prefix("bad:")).and_then(|x| x.parse().ok()).unwrap_or(0);
+        let lo = idx.saturating_sub(6);
+        if let Ok(p) = std::env::var("C05_DUMP") {
+            let _ = std::fs::write(format!("{p}/trace_{}_{idx}.txt", ctx.report.traces_validated_against_impl), tr.events.join("\n"));
+        }
+        ctx.report.violation("model", "C05:lock-discipline-violated-on-real-trace", format!("{what}: the logged trace leaves the lock discipline at event {idx} ({}); context {:?}", tr.events.get(idx).cloned().unwrap_or_default(), &tr.events[lo..(idx + 3).min(tr.events.len())]), case.clone());
+    }
+    if v.badopens > 0 {
+        ctx.report.violation("oracle", "C05:reload-open-hit-deleted-file", format!("{what}: {} open_read of a reload hit a deleted path ({})", v.badopens, v.raw.chars().take(200).collect::<String>()), case.clone());
+    }
+    // the commit the model assigns to each publication = the commit the real searcher shows
+    let pubs: HashMap<(u64, u64), u64> = v.pubs.iter().cloned().collect();
+    for (rk, obs) in observed {
+        if !obs.ok {
+            continue;
+        }
+        match pubs.get(rk) {
+            Some(j) => {
+                let c = candidates(&metas, &obs.sig);
+                ctx.report.count("trace:publication-compared");
+                if !c.contains(&(*j as usize)) {
+                    // watcher publications are matched to sessions by generation id, which is drawn
+                    // just after the lock is released: two sessions can swap there
+                    let other = rk.0 == 900 && v.loads.iter().any(|((r, _), jj)| *r == 900 && c.contains(&(*jj as usize)));
+                    // the searcher is read after reload() has returned: a reload of the same reader
+                    // that started later may have published in between
+                    let overtaken = v.pubs.iter().any(|((r, k), jj)| *r == rk.0 && *k > rk.1 && c.contains(&(*jj as usize)));
+                    if other {
+                        ctx.report.count("trace:watcher-generation-order-ambiguous");
+                    } else if overtaken {
+                        ctx.report.count("trace:observation-overtaken-by-later-reload");
+                    } else {
+                        ctx.report.violation("model", "C05:model-commit-differs", format!("{what}: reload {rk:?}: model says meta {j}, the searcher's segments are those of metas {c:?}"), case.clone());
+                    }
+                } else if let (Some(s), Some(d)) = (obs.check.as_ref(), metas.get(*j as usize).and_then(|m| w.by_opstamp.get(&m.opstamp))) {
+                    if let Err(e) = matches_docs(s, w.f, d) {
+                        ctx.report.violation("oracle", if e == "PANIC" { "C05:panic" } else { "C05:searcher-docs-differ-from-commit" }, format!("{what}: reload {rk:?} (meta {j}): {e}"), case.clone());
+                    }
+                }
+            }
+            None => {
+                if v.ok {
+                    ctx.report.violation("model", "C05:model-commit-differs", format!("{what}: reload {rk:?} returned Ok but the model has no publication for it"), case.clone());
+                }
+            }
+        }
+    }
+    (tr, metas)
+}
+
+/// per reader: the sequence of commits observed must not decrease; attribution by the model's
+/// `sequential` predicate on the real trace
+fn check_monotone(ctx: &mut Ctx, what: &str, tr: &Trace, metas: &[MetaRec], per_reader: &BTreeMap<u64, Vec<Obs>>, case: &Value) {
+    for (rho, seq) in per_reader {
+        let mut last: usize = 0;
+        let mut regress: Option<(usize, Vec<usize>)> = None;
+        for o in seq.iter().filter(|o| o.ok) {
+            let c = candidates(metas, &o.sig);
+            match c.iter().cloned().find(|j| *j >= last) {
+                Some(j) => last = j,
+                None => {
+                    if !c.is_empty() {
+                        regress = Some((last, c));
+                        break;
+                    }
+                }
+            }
+        }
+        let (seqok, mono, raw) = ask_seq(ctx, *rho, tr);
+        ctx.report.count(if seqok { "mono:reader-sequential" } else { "mono:reader-overlapping" });
+        if let Some((from, to)) = regress {
+            if !seqok {
+                ctx.report.violation("oracle", "C05:overlapping-reloads-publish-out-of-order", format!("{what}: reader {rho} moved back from meta {from} to meta {to:?}; two of its reloads overlapped in time (model: {raw})"), case.clone());
+            } else {
+                ctx.report.violation("oracle", "C05:reload-regressed-sequential", format!("{what}: reader {rho} moved back from meta {from} to meta {to:?} although its reloads did not overlap (model: {raw})"), case.clone());
+            }
+        } else if seqok && !mono {
+            ctx.report.violation("model", "C05:model-monotone-differs", format!("{what}: reader {rho}: model publications not monotone on a sequential trace: {raw}"), case.clone());
+        }
+    }
+}
+
+fn scenario_concurrent(ctx: &mut Ctx, seed: u64, reloads: usize, mmap: bool) {
+    let mut rng = Rng::new(seed);
+    let case = json!({"scenario": "concurrent", "seed": seed, "reloads": reloads, "mmap": mmap});
+    let store = Store::new(mmap);
+    let gdir = store.g.clone();
+    let mut w = World::create(store.dir());
+    w.add(&mut rng, 5);
+    w.commit();
+    let stop = Arc::new(AtomicBool::new(false));
+    // reader 1: Manual reader of the writer's own Index, on a second thread;
+    // reader 2, 3: Manual readers of separate Index instances ("other processes")
+    let nreaders = 2 + rng.usize_below(2);
+    let mut handles = vec![];
+    for rho in 1..=nreaders as u64 {
+        let g = gdir.clone();
+        let idx = if rho == 1 { w.index.clone() } else { Index::open(store.dir()).unwrap() };
+        let stop = stop.clone();
+        let mut trng = rng.fork();
+        let h = std::thread::Builder::new().name(format!("c05-rd-{rho}")).spawn(move || {
+            let mut out: Vec<Obs> = vec![];
+            let reader: IndexReader = match idx.reader_builder().reload_policy(ReloadPolicy::Manual).try_into() {
+                Ok(r) => r,
+                Err(e) => {
+                    out.push(Obs { ok: false, err: format!("{e}"), sig: vec![], check: None });
+                    return out;
+                }
+            };
+            g.mark(MARK_PUB);
+            let s = reader.searcher();
+            out.push(Obs { ok: true, err: String::new(), sig: sig_of(&s), check: Some(s) });
+            for _ in 0..reloads {
+                if stop.load(Ordering::SeqCst) {
+                    break;
+                }
+                out.push(do_reload(&g, &reader));
+                if trng.chance(1, 2) {
+                    std::thread::yield_now();
+                } else {
+                    std::thread::sleep(Duration::from_micros(trng.below(400)));
+                }
+            }
+            out
+        }).unwrap();
+        handles.push((rho, h));
+    }
+    let nops = 6 + rng.usize_below(8);
+    for _ in 0..nops {
+        let op = w.random_op(&mut rng);
+        ctx.report.count(&format!("conc-op:{op}"));
+    }
+    // a GC with a harness-supplied closure: the closure's marker must fall inside the lock section
+    let mut gc_livings: Vec<Vec<String>> = vec![];
+    {
+        w.commit();
+        let mut living: Vec<String> = vec![META.to_string()];
+        for m in w.index.searchable_segment_metas().unwrap() {
+            living.extend(m.list_files().into_iter().map(|p| p.to_string_lossy().to_string()));
+        }
+        if rng.chance(1, 2) {
+            w.drop_writer();
+        }
+        gc_livings.push(living.clone());
+        let g = gdir.clone();
+        let mut idx = w.index.clone();
+        let set: std::collections::HashSet<PathBuf> = living.iter().map(PathBuf::from).collect();
+        let res = catch_unwind(AssertUnwindSafe(|| idx.directory_mut().garbage_collect(move || { g.mark(MARK_GCLIST); set })));
+        if !matches!(res, Ok(Ok(_))) {
+            ctx.report.violation("oracle", "C05:gc-failed", "ManagedDirectory::garbage_collect failed or panicked".into(), case.clone());
+        }
+        ctx.report.count("conc:gc-with-closure");
+    }
+    stop.store(true, Ordering::SeqCst);
+    let mut per_reader: BTreeMap<u64, Vec<Obs>> = BTreeMap::new();
+    let mut observed: Vec<((u64, u64), Obs)> = vec![];
+    for (rho, h) in handles {
+        match h.join() {
+            Ok(v) => {
+                for (k, o) in v.iter().enumerate() {
+                    if !o.ok {
+                        let key = if o.err == "PANIC" { "C05:panic" } else { "C05:reload-failed" };
+                        ctx.report.violation(if o.err == "PANIC" { "oracle" } else { "model" }, key, format!("reader {rho} reload {k}: {}", o.err), case.clone());
+                    }
+                    observed.push(((rho, k as u64), o.clone()));
+                    ctx.report.case(&format!("conc|{seed}|{rho}|{k}|{:?}", o.sig), true);
+                }
+                per_reader.insert(rho, v);
+            }
+            Err(_) => ctx.report.violation("oracle", "C05:panic", format!("reader thread {rho} panicked"), case.clone()),
+        }
+    }
+    ctx.report.count(if mmap { "conc:mmap" } else { "conc:ram" });
+    let (tr, metas) = check_trace(ctx, "concurrent", &gdir, &gc_livings, &observed, &w, &[], &case);
+    check_monotone(ctx, "concurrent", &tr, &metas, &per_reader, &case);
+    ctx.report.count_n("conc:metas-written", metas.len() as u64);
+    if ctx.report.samples.len() < 4 {
+        ctx.report.sample(json!({"scenario": "concurrent", "writer_ops": w.ops, "readers": nreaders, "metas": metas.len(), "trace_prefix": tr.events.iter().take(40).cloned().collect::<Vec<_>>().join(";")}));
+    }
+}
+
+// ------------------------------------------------------------------------------------------
+// (c) forced windows
+// ------------------------------------------------------------------------------------------
+#[derive(Default)]
+struct PauseState {
+    armed_at: Option<u64>,
+    count: u64,
+    paused: bool,
+    resume: bool,
+    done: bool,
+    paused_before: String,
+}
+
+struct Pauser {
+    st: Mutex<PauseState>,
+    cv: Condvar,
+}
+
+impl Pauser {
+    fn new() -> Arc<Pauser> {
+        Arc::new(Pauser { st: Mutex::new(PauseState::default()), cv: Condvar::new() })
+    }
+    /// called on the reader thread before its n-th storage operation
+    fn at_op(&self, desc: &str) {
+        let mut g = self.st.lock().unwrap();
+        let n = g.count;
+        g.count += 1;
+        if g.armed_at == Some(n) {
+            g.paused = true;
+            g.paused_before = desc.to_string();
+            self.cv.notify_all();
+            let deadline = Instant::now() + Duration::from_secs(30);
+            while !g.resume {
+                let (ng, to) = self.cv.wait_timeout(g, Duration::from_millis(200)).unwrap();
+                g = ng;
+                if to.timed_out() && Instant::now() > deadline {
+                    break;
+                }
+            }
+        }
+    }
+}
+
+fn scenario_windows(ctx: &mut Ctx, seed: u64, windows: usize, mmap: bool) {
+    let mut rng = Rng::new(seed);
+    let store = Store::new(mmap);
+    let gdir = store.g.clone();
+    let mut w = World::create(store.dir());
+    let f = w.f;
+    for _ in 0..1 + rng.usize_below(3) {
+        { let n_ = 1 + rng.usize_below(8); w.add(&mut rng, n_) };
+        if rng.chance(1, 3) {
+            w.delete_some(&mut rng, 1);
+        }
+        w.commit();
+    }
+    let second = Index::open(store.dir()).unwrap();
+    let use_second = rng.chance(2, 3);
+    ctx.report.count(if mmap { "window:mmap-world" } else { "window:ram-world" });
+    let ridx = if use_second { second.clone() } else { w.index.clone() };
+    let reader: IndexReader = match on_thread("c05-rd-1", { let g = gdir.clone(); move || { let r: tantivy::Result<IndexReader> = ridx.reader_builder().reload_policy(ReloadPolicy::Manual).try_into(); g.mark(MARK_PUB); r } }) {
+        Ok(Ok(r)) => r,
+        _ => {
+            ctx.report.violation("oracle", "C05:panic", "creating the reader failed".into(), json!({"scenario": "windows", "seed": seed, "windows": windows, "mmap": mmap}));
+            return;
+        }
+    };
+    let mut observed: Vec<((u64, u64), Obs)> = vec![];
+    let mut per_reader: BTreeMap<u64, Vec<Obs>> = BTreeMap::new();
+    {
+        let s = reader.searcher();
+        let o = Obs { ok: true, err: String::new(), sig: sig_of(&s), check: Some(s) };
+        observed.push(((1, 0), o.clone()));
+        per_reader.entry(1).or_default().push(o);
+    }
+    for wi in 0..windows {
+        let case = json!({"scenario": "windows", "seed": seed, "windows": windows, "failing_window": wi, "mmap": mmap});
+        let nsegs = w.index.searchable_segment_ids().map(|v| v.len()).unwrap_or(1);
+        let nops = 3 + 7 * nsegs as u64;
+        let at = match rng.below(10) {
+            0 => 0,
+            1 => 1,
+            2 => 2,
+            _ => rng.below(nops + 1),
+        };
+        let pauser = Pauser::new();
+        pauser.st.lock().unwrap().armed_at = Some(at);
+        let held_before = reader.searcher();
+        let fp_before = fingerprint(&held_before, f);
+        let log_at_start = gdir.log_len();
+        let jmin = metas_of(&gdir.log()).len().saturating_sub(1);
+        {
+            let p = pauser.clone();
+            let hook: Hook = Arc::new(move |rec: &OpRec| {
+                if rec.thread == "c05-rd-1" && rec.path != MARK_PUB {
+                    p.at_op(&format!("{} {}", rec.kind.name(), rec.path));
+                }
+            });
+            gdir.set_hook(Some(hook));
+        }
+        let burst_kind = rng.below(4);
+        let mut brng = rng.fork();
+        let obs = std::thread::scope(|sc| {
+            let g = gdir.clone();
+            let rd = reader.clone();
+            let p2 = pauser.clone();
+            let rh = std::thread::Builder::new().name("c05-rd-1".into()).spawn_scoped(sc, move || {
+                let o = do_reload(&g, &rd);
+                let mut st = p2.st.lock().unwrap();
+                st.done = true;
+                p2.cv.notify_all();
+                o
+            }).unwrap();
+            // wait until the reader is paused or has finished
+            let paused = {
+                let mut g = pauser.st.lock().unwrap();
+                let deadline = Instant::now() + Duration::from_secs(20);
+                while !g.paused && !g.done && Instant::now() < deadline {
+                    g = pauser.cv.wait_timeout(g, Duration::from_millis(50)).unwrap().0;
+                }
+                g.paused
+            };
+            if paused {
+                let before = pauser.st.lock().unwrap().paused_before.clone();
+                ctx.report.count(&format!("window:paused-before:{}", before.split(' ').next().unwrap_or("").to_string() + if before.ends_with(LOCK) { "-lock" } else if before.ends_with(META) { "-meta" } else { "" }));
+                let burst_done = Arc::new(AtomicBool::new(false));
+                let bd = burst_done.clone();
+                let wref = &mut w;
+                let bh = std::thread::Builder::new().name("c05-writer-burst".into()).spawn_scoped(sc, move || {
+                    // commit + merge + GC while the reader sits in its window
+                    { let n_ = 1 + brng.usize_below(5); wref.add(&mut brng, n_) };
+                    if burst_kind == 1 {
+                        { let n_ = 1 + brng.usize_below(2); wref.delete_some(&mut brng, n_) };
+                    }
+                    wref.commit();
+                    if burst_kind != 3 {
+                        wref.merge_all();
+                    }
+                    wref.gc();
+                    if burst_kind == 2 {
+                        wref.add(&mut brng, 2);
+                        wref.commit();
+                        wref.add(&mut brng, 3); // left uncommitted
+                    }
+                    bd.store(true, Ordering::SeqCst);
+                }).unwrap();
+                // resume the reader when the burst has finished, or when the writer side is
+                // seen waiting for META_LOCK (GC blocked by the paused reader)
+                let deadline = Instant::now() + Duration::from_secs(15);
+                let mut contended = false;
+                let mut waiting_since: Option<Instant> = None;
+                while !burst_done.load(Ordering::SeqCst) && Instant::now() < deadline {
+                    let log = gdir.log();
+                    let tail = &log[log_at_start.min(log.len())..];
+                    if tail.iter().any(|r| r.kind == OpKind::OpenWrite && r.path == LOCK && !r.ok && r.thread != "c05-rd-1") {
+                        contended = true;
+                        break;
+                    }
+                    // flock (MmapDirectory): an attempt by the writer side that has not been granted for 10 ms
+                    let pending = tail.iter().rposition(|r| r.path == MARK_ATTEMPT && r.thread != "c05-rd-1").map(|i| {
+                        let t = &tail[i].thread;
+                        !tail[i..].iter().any(|r| r.kind == OpKind::OpenWrite && r.path == LOCK && r.ok && &r.thread == t)
+                    }).unwrap_or(false);
+                    if pending {
+                        let since = *waiting_since.get_or_insert_with(Instant::now);
+                        if since.elapsed() > Duration::from_millis(10) {
+                            contended = true;
+                            break;
+                        }
+                    } else {
+                        waiting_since = None;
+                    }
+                    std::thread::sleep(Duration::from_millis(2));
+                }
+                ctx.report.count(if contended { "window:gc-waited-for-reader" } else { "window:burst-completed-inside-window" });
+                {
+                    let mut g = pauser.st.lock().unwrap();
+                    g.resume = true;
+                    pauser.cv.notify_all();
+                }
+                let o = rh.join();
+                let _ = bh.join();
+                o
+            } else {
+                ctx.report.count("window:not-reached");
+                rh.join()
+            }
+        });
+        gdir.set_hook(None);
+        let log = gdir.log();
+        let metas = metas_of(&log);
+        let jmax = metas.len().saturating_sub(1);
+        let k = (wi + 1) as u64;
+        match obs {
+            Err(_) => ctx.report.violation("oracle", "C05:panic", format!("reload thread panicked in window {wi}"), case.clone()),
+            Ok(o) => {
+                ctx.report.case(&format!("win|{seed}|{wi}|{at}|{:?}", o.sig), true);
+                if o.ok {
+                    if let Some(j) = judge_obs(ctx, &format!("window {wi} (paused before op {at})"), &o, &metas, &w.by_opstamp, f, jmin, jmax, &case) {
+                        ctx.report.count(if j == jmin && jmax > jmin { "window:reload-saw-older-commit" } else { "window:reload-saw-newest-commit" });
+                    }
+                } else if o.err == "PANIC" {
+                    ctx.report.violation("oracle", "C05:panic", format!("reload panicked in window {wi} (paused before op {at})"), case.clone());
+                } else {
+                    ctx.report.violation("model", "C05:reload-failed-in-window", format!("reload failed in window {wi} (paused before op {at}): {}", o.err), case.clone());
+                    // failing cleanly: the previous searcher must still be served, intact
+                    if sig_of(&reader.searcher()) != sig_of(&held_before) {
+                        ctx.report.violation("oracle", "C05:failed-reload-changed-searcher", format!("after a failed reload the reader serves a different searcher (window {wi})"), case.clone());
+                    }
+                }
+                observed.push(((1, k), o.clone()));
+                per_reader.entry(1).or_default().push(o);
+            }
+        }
+        // the searcher held across the window is unchanged
+        match (fp_before, fingerprint(&held_before, f)) {
+            (Ok(a), Ok(b)) if a == b => {}
+            (Ok(_), Ok(_)) => ctx.report.violation("oracle", "C05:held-searcher-changed", format!("searcher held across window {wi} answers differently"), case.clone()),
+            (_, Err(e)) | (Err(e), _) => ctx.report.violation("oracle", if e == "PANIC" { "C05:panic" } else { "C05:held-searcher-error" }, format!("searcher held across window {wi}: {e}"), case.clone()),
+        }
+        // leave no uncommitted work behind for the next window's expectations
+        if w.live != w.committed {
+            w.commit();
+        }
+    }
+    let case = json!({"scenario": "windows", "seed": seed, "windows": windows, "mmap": mmap});
+    let (tr, metas) = check_trace(ctx, "windows", &gdir, &[], &observed, &w, &[], &case);
+    check_monotone(ctx, "windows", &tr, &metas, &per_reader, &case);
+    if ctx.report.samples.len() < 5 {
+        ctx.report.sample(json!({"scenario": "windows", "second_index": use_second, "writer_ops": w.ops, "windows": windows, "metas": metas.len()}));
+    }
+}
+
+// ------------------------------------------------------------------------------------------
+// S5: two overlapping reloads of one reader
+// ------------------------------------------------------------------------------------------
+fn scenario_overlap(ctx: &mut Ctx, seed: u64, mmap: bool) {
+    let mut rng = Rng::new(seed);
+    let case = json!({"scenario": "overlap", "seed": seed, "mmap": mmap});
+    let store = Store::new(mmap);
+    let gdir = store.g.clone();
+    let mut w = World::create(store.dir());
+    let f = w.f;
+    { let n_ = 1 + rng.usize_below(6); w.add(&mut rng, n_) };
+    w.commit();
+    let second = Index::open(store.dir()).unwrap();
+    let ridx = if rng.chance(1, 2) { second } else { w.index.clone() };
+    let reader: IndexReader = match on_thread("c05-rd-5-init", { let g = gdir.clone(); move || { let r: tantivy::Result<IndexReader> = ridx.reader_builder().reload_policy(ReloadPolicy::Manual).try_into(); g.mark(MARK_PUB); r } }) {
+        Ok(Ok(r)) => r,
+        _ => return,
+    };
+    { let n_ = 1 + rng.usize_below(4); w.add(&mut rng, n_) };
+    w.commit(); // commit A
+    // reload A is stopped at its first read of file bytes after it has released META_LOCK
+    // (SearcherInner::new opens the store readers there), i.e. between load and ArcSwap::store
+    let released = Arc::new(AtomicBool::new(false));
+    let pauser = Pauser::new();
+    pauser.st.lock().unwrap().armed_at = Some(0);
+    {
+        let rel = released.clone();
+        let hook: Hook = Arc::new(move |rec: &OpRec| {
+            if rec.thread == "c05-rd-5-a" && rec.kind == OpKind::Delete && rec.path == LOCK {
+                rel.store(true, Ordering::SeqCst);
+            }
+        });
+        gdir.set_hook(Some(hook));
+        let rel = released.clone();
+        let p = pauser.clone();
+        gdir.set_read_hook(Some(Arc::new(move |path: &str| {
+            if rel.load(Ordering::SeqCst) && std::thread::current().name() == Some("c05-rd-5-a") {
+                p.at_op(&format!("read {path}"));
+            }
+        })));
+    }
+    let mut per: Vec<Obs> = vec![];
+    {
+        let s = reader.searcher();
+        per.push(Obs { ok: true, err: String::new(), sig: sig_of(&s), check: Some(s) });
+    }
+    let (oa, ob, mid_sig) = std::thread::scope(|sc| {
+        let g = gdir.clone();
+        let rd = reader.clone();
+        let p2 = pauser.clone();
+        let ha = std::thread::Builder::new().name("c05-rd-5-a".into()).spawn_scoped(sc, move || {
+            let o = do_reload(&g, &rd);
+            let mut st = p2.st.lock().unwrap();
+            st.done = true;
+            p2.cv.notify_all();
+            o
+        }).unwrap();
+        let paused = {
+            let mut g = pauser.st.lock().unwrap();
+            let deadline = Instant::now() + Duration::from_secs(20);
+            while !g.paused && !g.done && Instant::now() < deadline {
+                g = pauser.cv.wait_timeout(g, Duration::from_millis(50)).unwrap().0;
+            }
+            g.paused
+        };
+        ctx.report.count(if paused { "overlap:A-paused-between-release-and-store" } else { "overlap:A-not-paused" });
+        let mut ob = None;
+        let mut mid = None;
+        if paused {
+            { let n_ = 1 + rng.usize_below(4); w.add(&mut rng, n_) };
+            w.commit(); // commit B
+            if rng.chance(1, 2) {
+                w.merge_all();
+            }
+            let g2 = gdir.clone();
+            let rd2 = reader.clone();
+            let b_done = Arc::new(AtomicBool::new(false));
+            let bd = b_done.clone();
+            let hb = std::thread::Builder::new().name("c05-rd-5-b".into()).spawn_scoped(sc, move || {
+                let o = do_reload(&g2, &rd2);
+                bd.store(true, Ordering::SeqCst);
+                o
+            }).unwrap();
+            // if reloads of one reader were serialised (a repair of S5), B waits behind A
+            let deadline = Instant::now() + Duration::from_millis(2500);
+            while !b_done.load(Ordering::SeqCst) && Instant::now() < deadline {
+                std::thread::sleep(Duration::from_millis(2));
+            }
+            let b_finished_inside = b_done.load(Ordering::SeqCst);
+            ctx.report.count(if b_finished_inside { "overlap:B-completed-while-A-in-flight" } else { "overlap:B-blocked-behind-A" });
+            if b_finished_inside {
+                mid = Some(sig_of(&reader.searcher()));
+            }
+            {
+                let mut g = pauser.st.lock().unwrap();
+                g.resume = true;
+                pauser.cv.notify_all();
+            }
+            ob = hb.join().ok();
+        }
+        (ha.join().ok(), ob, mid)
+    });
+    gdir.set_hook(None);
+    gdir.set_read_hook(None);
+    let final_searcher = reader.searcher();
+    let mut observed: Vec<((u64, u64), Obs)> = vec![((5, 0), per[0].clone())];
+    // publication order as observed: B returned (and was visible) before A returned, unless B
+    // had to wait for A
+    if mid_sig.is_some() {
+        if let Some(o) = &ob {
+            per.push(o.clone());
+        }
+        if let Some(o) = &oa {
+            per.push(o.clone());
+        }
+    } else {
+        if let Some(o) = &oa {
+            per.push(o.clone());
+        }
+        if let Some(o) = &ob {
+            per.push(o.clone());
+        }
+    }
+    if let Some(o) = &oa {
+        observed.push(((5, 1), o.clone()));
+    }
+    if let Some(o) = &ob {
+        observed.push(((5, 2), o.clone()));
+    }
+    let log = gdir.log();
+    let metas = metas_of(&log);
+    ctx.report.case(&format!("overlap|{seed}|{:?}|{:?}", mid_sig, sig_of(&final_searcher)), mid_sig.is_some());
+    // the final searcher is what the reader serves from now on
+    let fin = Obs { ok: true, err: String::new(), sig: sig_of(&final_searcher), check: Some(final_searcher.clone()) };
+    if let Some(j) = judge_obs(ctx, "overlap: final searcher", &fin, &metas, &w.by_opstamp, f, 0, metas.len().saturating_sub(1), &case) {
+        ctx.report.count(&format!("overlap:final-meta-is-{}", if j + 1 == metas.len() { "newest" } else { "older" }));
+    }
+    let (tr, metas) = check_trace(ctx, "overlap", &gdir, &[], &observed, &w, &[], &case);
+    let mut per_reader = BTreeMap::new();
+    per_reader.insert(5u64, per);
+    check_monotone(ctx, "overlap", &tr, &metas, &per_reader, &case);
+    // a later, non-overlapping reload must bring the reader forward again
+    let again = match on_thread("c05-rd-5-c", { let g = gdir.clone(); let rd = reader.clone(); move || do_reload(&g, &rd) }) {
+        Ok(o) => o,
+        Err(_) => return,
+    };
+    if again.ok && !candidates(&metas, &again.sig).contains(&(metas.len() - 1)) {
+        ctx.report.violation("oracle", "C05:reload-regressed-sequential", "a reload after both overlapping reloads had returned does not show the newest commit".into(), case.clone());
+    }
+    if ctx.report.samples.len() < 6 {
+        ctx.report.sample(json!({"scenario": "overlap", "trace": tr.events.join(";"), "metas": metas.len(), "final_sig_is_newest": candidates(&metas, &fin.sig).contains(&(metas.len() - 1))}));
+    }
+}
+
+// ------------------------------------------------------------------------------------------
+// (d) OnCommitWithDelay: the reader is reloaded by watcher threads (RamDirectory: one fresh
+// thread per meta.json write), optionally raced by manual reloads
+// ------------------------------------------------------------------------------------------
+fn scenario_oncommit(ctx: &mut Ctx, seed: u64, free_running: bool) {
+    let mut rng = Rng::new(seed);
+    let case = json!({"scenario": "oncommit", "seed": seed, "free_running": free_running});
+    let gdir = GDir::new();
+    let mut w = World::create(Box::new(gdir.clone()));
+    w.add(&mut rng, 3);
+    w.commit();
+    let second = rng.chance(1, 2);
+    let ridx = if second { Index::open(gdir.clone()).unwrap() } else { w.index.clone() };
+    let reader: IndexReader = match on_thread("c05-rd-900-init", move || { let r: tantivy::Result<IndexReader> = ridx.reader_builder().reload_policy(ReloadPolicy::OnCommitWithDelay).try_into(); r }) {
+        Ok(Ok(r)) => r,
+        _ => return,
+    };
+    let stop = Arc::new(AtomicBool::new(false));
+    // poller: every distinct publication it sees, with the log length at that moment
+    let poll = {
+        let rd = reader.clone();
+        let g = gdir.clone();
+        let stop = stop.clone();
+        std::thread::Builder::new().name("c05-poll".into()).spawn(move || {
+            let mut out: Vec<(usize, u64, Searcher)> = vec![];
+            let mut last: Option<u64> = None;
+            loop {
+                let s = rd.searcher();
+                let pos = g.log_len();
+                let gen = s.generation().generation_id();
+                if last != Some(gen) {
+                    last = Some(gen);
+                    out.push((pos, gen, s));
+                }
+                if stop.load(Ordering::SeqCst) {
+                    break;
+                }
+                std::thread::sleep(Duration::from_micros(100));
+            }
+            out
+        }).unwrap()
+    };
+    // optional manual reloads racing the watcher threads
+    let manual = if free_running && rng.chance(2, 3) {
+        let rd = reader.clone();
+        let stop = stop.clone();
+        Some(std::thread::Builder::new().name("c05-rd-900-m".into()).spawn(move || {
+            let mut n = 0u64;
+            while !stop.load(Ordering::SeqCst) && n < 40 {
+                let _ = catch_unwind(AssertUnwindSafe(|| rd.reload()));
+                n += 1;
+                std::thread::sleep(Duration::from_micros(700));
+            }
+            n
+        }).unwrap())
+    } else {
+        None
+    };
+    let nops = 8 + rng.usize_below(8);
+    let mut no_catchup = 0;
+    for _ in 0..nops {
+        let metas_before = metas_of(&gdir.log()).len();
+        let gen_before = reader.searcher().generation().generation_id();
+        let op = if free_running {
+            w.random_op(&mut rng)
+        } else {
+            // one meta.json write per operation at most
+            match rng.below(6) {
+                0..=2 => { let n_ = 1 + rng.usize_below(4); w.add(&mut rng, n_); w.commit(); "add+commit" }
+                3 => { w.delete_some(&mut rng, 1); w.commit(); "delete+commit" }
+                4 => { w.merge_all(); "merge" }
+                _ => { w.add(&mut rng, 2); w.rollback(); "add+rollback" }
+            }
+        };
+        ctx.report.count(&format!("oncommit-op:{op}"));
+        if !free_running {
+            let m = (metas_of(&gdir.log()).len() - metas_before) as u64;
+            let deadline = Instant::now() + Duration::from_secs(5);
+            while reader.searcher().generation().generation_id() < gen_before + m && Instant::now() < deadline {
+                std::thread::sleep(Duration::from_micros(200));
+            }
+            if reader.searcher().generation().generation_id() < gen_before + m {
+                no_catchup += 1;
+            }
+            // let the poller see it before the next operation starts
+            std::thread::sleep(Duration::from_micros(400));
+        }
+    }
+    // quiesce: wait until the watcher threads have gone silent
+    let mut quiet_since = Instant::now();
+    let mut last_len = gdir.log_len();
+    let deadline = Instant::now() + Duration::from_secs(5);
+    while Instant::now() < deadline && quiet_since.elapsed() < Duration::from_millis(150) {
+        std::thread::sleep(Duration::from_millis(10));
+        let l = gdir.log_len();
+        if l != last_len {
+            last_len = l;
+            quiet_since = Instant::now();
+        }
+    }
+    stop.store(true, Ordering::SeqCst);
+    let manual_reloads = manual.map(|h| h.join().unwrap_or(0)).unwrap_or(0);
+    ctx.report.count_n("oncommit:manual-reloads-racing", manual_reloads);
+    let seen = match poll.join() {
+        Ok(v) => v,
+        Err(_) => return,
+    };
+    if no_catchup > 0 {
+        ctx.report.count_n("oncommit:no-catchup-within-5s", no_catchup);
+        ctx.report.violation("oracle", "C05:oncommit-reader-did-not-follow", format!("OnCommitWithDelay reader did not publish a new searcher within 5 s after {no_catchup} meta.json writes"), case.clone());
+    }
+    // generation ids are drawn right after open_segment_readers returns: generation g is the
+    // g-th reload session of this reader (session 0 = creation)
+    let mut marks: Vec<(usize, u64, u64)> = vec![];
+    let mut observed: Vec<((u64, u64), Obs)> = vec![];
+    let mut per: Vec<Obs> = vec![];
+    for (pos, gen, s) in &seen {
+        marks.push((*pos, 900, *gen));
+        let o = Obs { ok: true, err: String::new(), sig: sig_of(s), check: Some(s.clone()) };
+        observed.push(((900, *gen), o.clone()));
+        per.push(o);
+        ctx.report.case(&format!("oncommit|{seed}|{gen}|{:?}", sig_of(s)), true);
+    }
+    ctx.report.count_n("oncommit:publications-observed", seen.len() as u64);
+    let (tr, metas) = check_trace(ctx, if free_running { "oncommit-free" } else { "oncommit-sequential" }, &gdir, &[], &observed, &w, &marks, &case);
+    let mut per_reader = BTreeMap::new();
+    per_reader.insert(900u64, per);
+    check_monotone(ctx, if free_running { "oncommit-free" } else { "oncommit-sequential" }, &tr, &metas, &per_reader, &case);
+    // at rest the reader serves the newest commit (unless an overlap left it behind: S5)
+    let fin = reader.searcher();
+    if !candidates(&metas, &sig_of(&fin)).contains(&(metas.len() - 1)) {
+        let (seqok, _, raw) = ask_seq(ctx, 900, &tr);
+        if seqok {
+            ctx.report.violation("oracle", "C05:oncommit-final-not-newest", format!("at rest the OnCommitWithDelay reader serves metas {:?}, newest is {} (model: {raw})", candidates(&metas, &sig_of(&fin)), metas.len() - 1), case.clone());
+        } else {
+            ctx.report.violation("oracle", "C05:overlapping-reloads-publish-out-of-order", format!("at rest the OnCommitWithDelay reader serves metas {:?}, newest is {}; its reloads overlapped (model: {raw})", candidates(&metas, &sig_of(&fin)), metas.len() - 1), case.clone());
+        }
+    } else {
+        ctx.report.count("oncommit:final-is-newest");
+    }
+}
+
+/// a scenario must not take the harness down: an unexpected failure of a writer / index call
+/// (an `unwrap` in the scenario) is reported with its message and a replayable case
+fn guarded(ctx: &mut Ctx, case: Value, f: impl FnOnce(&mut Ctx)) {
+    let r = catch_unwind(AssertUnwindSafe(|| f(ctx)));
+    if let Err(e) = r {
+        let msg = e.downcast_ref::<String>().cloned().or_else(|| e.downcast_ref::<&str>().map(|s| s.to_string())).unwrap_or_else(|| "panic".into());
+        ctx.report.violation("oracle", "C05:index-operation-failed", format!("a writer / reader / index operation of the scenario failed or panicked: {}", msg.chars().take(300).collect::<String>()), case);
+    }
+}
+
+pub fn replay(ctx: &mut Ctx, case: &Value) {
+    let seed = case["seed"].as_u64().unwrap_or(1);
+    match case["scenario"].as_str().unwrap_or("") {
+        "fingerprint" => scenario_fingerprint(ctx, seed, case["mmap"].as_bool().unwrap_or(false), case["steps"].as_u64().unwrap_or(10) as usize),
+        "concurrent" => scenario_concurrent(ctx, seed, case["reloads"].as_u64().unwrap_or(10) as usize, case["mmap"].as_bool().unwrap_or(false)),
+        "windows" => scenario_windows(ctx, seed, case["windows"].as_u64().unwrap_or(8) as usize, case["mmap"].as_bool().unwrap_or(false)),
+        "overlap" => scenario_overlap(ctx, seed, case["mmap"].as_bool().unwrap_or(false)),
+        "oncommit" => scenario_oncommit(ctx, seed, case["free_running"].as_bool().unwrap_or(false)),
+        other => ctx.report.notes.push(format!("unknown replay scenario {other}")),
+    }
+}
 
 pub fn run(ctx: &mut Ctx) {
-    ctx.report.notes.push("C05: harness not built yet".into());
+    ctx.report.rule = "cases = (held searcher, writer operation) fingerprint re-checks, reloads racing a writer, forced reload windows, overlapping reloads; \
+        non-trivial = the searcher was re-checked after at least one later writer operation / the reload raced or was paused against a commit+merge+GC burst".into();
+    ctx.report.correspondence_obligations = vec![
+        "real storage trace satisfies the model's lock discipline (valid full), decided by the Lean model".into(),
+        "commit j the model assigns to each publication = commit identified from the real searcher's segments; its documents = the harness's record of that commit".into(),
+        "held searcher fingerprint constant under commits, merges, deletes, rollback, GC, writer drop (RamDirectory and MmapDirectory)".into(),
+        "forced windows: reload paused before each storage operation while commit+merge+GC run yields exactly one commit".into(),
+        "per reader: observed commits non-decreasing whenever the model's `sequential` holds on the real trace".into(),
+        "GC closure marker falls inside the META_LOCK section of the real garbage_collect".into(),
+    ];
+    let d = ctx.model.ask("C05 disc");
+    if d != "readerLock=1 gcLock=1" {
+        ctx.report.notes.push(format!("extractor sees a weaker discipline in the source text: {d}"));
+    }
+    if let Some(case) = ctx.replay.clone() {
+        guarded(ctx, case.clone(), |ctx| replay(ctx, &case));
+        return;
+    }
+    let n_fp = ctx.budget(12, 120);
+    for i in 0..n_fp {
+        let seed = ctx.rng.next_u64();
+        let steps = 10 + (i as usize % 8);
+        let mmap = i % 3 == 2;
+        guarded(ctx, json!({"scenario": "fingerprint", "seed": seed, "mmap": mmap, "steps": steps}), |ctx| scenario_fingerprint(ctx, seed, mmap, steps));
+    }
+    let n_conc = ctx.budget(16, 150);
+    for i in 0..n_conc {
+        let seed = ctx.rng.next_u64();
+        let mmap = i % 4 == 3;
+        guarded(ctx, json!({"scenario": "concurrent", "seed": seed, "reloads": 25, "mmap": mmap}), |ctx| scenario_concurrent(ctx, seed, 25, mmap));
+    }
+    let n_win = ctx.budget(16, 120);
+    for i in 0..n_win {
+        let seed = ctx.rng.next_u64();
+        let k = ctx.budget(10, 20) as usize;
+        let mmap = i % 4 == 3;
+        guarded(ctx, json!({"scenario": "windows", "seed": seed, "windows": k, "mmap": mmap}), |ctx| scenario_windows(ctx, seed, k, mmap));
+    }
+    let n_oc = ctx.budget(10, 100);
+    for i in 0..n_oc {
+        let seed = ctx.rng.next_u64();
+        let free = i % 2 == 1;
+        guarded(ctx, json!({"scenario": "oncommit", "seed": seed, "free_running": free}), |ctx| scenario_oncommit(ctx, seed, free));
+    }
+    let n_ov = ctx.budget(8, 60);
+    for i in 0..n_ov {
+        let seed = ctx.rng.next_u64();
+        let mmap = i % 4 == 3;
+        guarded(ctx, json!({"scenario": "overlap", "seed": seed, "mmap": mmap}), |ctx| scenario_overlap(ctx, seed, mmap));
+    }
 }
